@@ -23,10 +23,13 @@ OPRULE = ifs_rules.Fortran90OperatorsRule
 UBRULE = debug_rules.DynamicUboundCheckRule
 
 SYMS = {'eq': '==', 'ne': '/=', 'lt': '<', 'le': '<=', 'gt': '>', 'ge': '>='}
-CLASSES = ['ops-fix-raises', 'ops-nonlower-spelling', 'ops-span-heuristic', 'ops-lookalike-in-literal',
+CLASSES = ['ops-span-heuristic', 'ops-lookalike-in-literal',
            'ops-unparsed-statement', 'ops-mixed-spelling-in-node', 'ops-same-op-on-several-lines',
-           'ubound-fix-reformats-statements', 'ubound-inline-if-duplicated', 'ubound-removes-other-code',
-           'ubound-not-an-ubound-check']
+           'fix-header-continuation-lost', 'fix-comment-displaced', 'fix-nested-report-skipped',
+           'fix-literal-requoted', 'fix-enclosing-while-regenerated', 'ubound-fix-reformats-statements',
+           'ubound-removes-other-code', 'ubound-not-an-ubound-check']
+# repaired by fix: commits (status "fixed" in known_findings.json; a recurrence is a VIOLATION): ops-fix-raises,
+# ops-nonlower-spelling; by e7bf38f (C03, inline-IF action statement source): ubound-inline-if-duplicated
 
 _TMP = None
 
@@ -188,9 +191,83 @@ def known_span(nodes):
     return any(e.lower() not in src.lower() and py_source_find(src, e) is not None for _, src, e, _ in nodes)
 
 
+def squash(text):
+    out = []
+    for t in toks(text):
+        if t[0] == 'op':
+            out.append(t[2].lower())
+        elif t[1] == 'code':
+            if not t[2].isspace() and t[2] != '&':
+                out.append(t[2].lower())
+        elif t[1].startswith('str'):
+            out.append(t[2])
+    return ''.join(out)
+
+
+def reported_ranges(nodes, reports):
+    rl = {l for _, _, l in reports}
+    return [(l0, l0 + s.count('\n')) for l0, s, _, _ in nodes if l0 in rl]
+
+
+def fix_lines(src, ranges):
+    """mirror of `fixLines`: the lines of reported nodes fixed as the specification says, the others copied"""
+    return '\n'.join(spec_fix(l) if any(a <= i <= b for a, b in ranges) else l for i, l in enumerate(src.split('\n'), 1))
+
+
+def line_code(l):
+    return ''.join(t[2] for t in toks(l) if t[0] == 'op' or (t[1] == 'code' and t[2] != '!')).rstrip().lower()
+
+
+def line_kw(kw, l):
+    return re.match(rf'\s*{kw}(?![A-Za-z0-9_])', l, re.I) is not None
+
+
+def starts_if(l):
+    return re.match(r'\s*if\s*\(', l, re.I) is not None
+
+
+def is_frame_line(l):
+    """SUBROUTINE / END SUBROUTINE lines and statements the frontend keeps as text: regenerated by every fix"""
+    return any(line_kw(k, l) for k in ('implicit', 'print', 'write', 'read', 'subroutine')) or \
+        re.match(r'\s*end\s+subroutine\b', l, re.I) is not None or is_inline_if(l)
+
+
+def is_inline_if(l):
+    """an inline IF statement: its header is regenerated by every write-back, the action statement copied"""
+    return starts_if(l) and not line_code(l).endswith('then') and not line_code(l).endswith('&')
+
+
+def enclosing_do(lines, rr):
+    in_r = lambda i: any(a <= i <= b for a, b in rr)
+    for i, l in enumerate(lines, 1):
+        if line_kw('do', l) and not in_r(i):
+            e = i + 1
+            while e <= len(lines) and ''.join(line_code(lines[e - 1]).split()) != 'enddo':
+                e += 1
+            if any(i < a and b < e for a, b in rr):
+                return True
+    return False
+
+
+def fix_known_flags(src, nodes, reports):
+    lines = src.split('\n')
+    rr = reported_ranges(nodes, reports)
+    rl = {l for _, _, l in reports}
+    return [any((line_kw('if', l) or line_kw('else', l) or line_kw('do', l)) and line_code(l).endswith('&') for l in lines),
+            any((any(line_kw(k, l) for k in ('if', 'else', 'do', 'call', 'print', 'end')) or line_code(l).endswith('&')
+                 or line_code(l).lstrip().startswith('&'))
+                and any(t[0] == 'ch' and t[1] == 'com' for t in toks(l)) for l in lines),
+            any((q[0] < r[0] and r[1] <= q[1]) or (q[0] <= r[0] and r[1] < q[1]) for r in rr for q in rr),
+            any(any(t[0] == 'ch' and t[1] == 'str"' for t in toks(s_)) for l0, s_, _, _ in nodes if l0 in rl),
+            enclosing_do(lines, rr)]
+
+
+FIX_CLASSES = ['fix-header-continuation-lost', 'fix-comment-displaced', 'fix-nested-report-skipped',
+               'fix-literal-requoted', 'fix-enclosing-while-regenerated']
+
+
 def known_flags(src, nodes):
-    return [known_nonlower(src), known_literal(src), known_unparsed(src), known_mixed(nodes), known_several(nodes),
-            known_span(nodes)]
+    return [known_literal(src), known_unparsed(src), known_mixed(nodes), known_several(nodes), known_span(nodes)]
 
 
 # ------------------------------------------------------------------ real code: operators rule
@@ -254,8 +331,8 @@ def run_ops(src, with_fix=True):
         try:
             linter.fix(sf, rep)
             res['fix'] = 'ran' if rep.fixable_reports else 'untouched'
-        except AttributeError as e:
-            res['fix'] = 'raises' if 'update_metadata' in str(e) else 'attributeerror'
+        except Exception as e:  # pylint: disable=broad-except
+            res['fix'] = 'raises-' + type(e).__name__.lower()
         res['fixed'] = path.read_text()
     return res
 
@@ -529,24 +606,27 @@ class C43(Prop):
     driver = 'Drivers/C43.lean'
     theorems = ['C43_tables_pinned', 'C43_render_toks', 'C43_fix_local', 'C43_fix_retokenize', 'C43_fix_clean',
                 'C43_fix_idempotent', 'C43_fix_protected', 'C43_fix_sem_partial', 'C43_sym_injective',
-                'C43_real_fix_untouched', 'C43_findall_f77']
+                'C43_real_fix_untouched', 'C43_findall_f77', 'C43_fixer_lines', 'C43_fixer_local', 'C43_fixer_clean',
+                'C43_fixer_protected']
     design_ref = 'DESIGN.md 4.x C43'
     level = 'proof'
-    level_text = ('Theorems (Lean kernel; every text = any list of characters, any start state of the code/literal/comment segmenter) about '
-                  'the SPECIFICATION of the operator fixer (the real fixer raises AttributeError on every reported violation: open '
-                  'finding ops-fix-raises, so there is no running fixer to model): C43_render_toks (the tokenizer is lossless), '
-                  'C43_fix_local (the fixed text is the token sequence with only operator tokens re-spelled; every character of a '
-                  'literal or comment is its own token and unchanged), C43_fix_retokenize + C43_fix_protected (the fixed text segments '
-                  'the same way, literal and comment characters identical in order), C43_fix_clean (no violation left), '
-                  'C43_fix_idempotent; C43_fix_sem_partial + C43_sym_injective (per token: the symbol written is read back by the F90 '
-                  'symbol table as the same operator when the next character is not "="; the whole-text re-lexing is oracle only). About '
-                  'the code that runs: C43_real_fix_untouched (no reports: file untouched), C43_findall_f77 (every reported text is a '
-                  'spelling of the operator named in the message), C43_tables_pinned (operator map / regex sources / fixable flags '
-                  'regenerated from /repo). Detection (Source.find, clone_lines, strip_inline_comments, line choice, findall) and the '
-                  'raising fixer are modelled line by line and tied to the real Linter by correspondence; "reported = F77 operators in '
-                  'code tokens" is checked by the direct oracle only and fails in six open classes. DynamicUboundCheckRule: decision '
-                  'model (which arguments are reported, which IF constructs are removed) by correspondence; text preservation, re-lint '
-                  'and re-parse of the written file by the direct oracle only (four open classes).')
+    level_text = ('Theorems (Lean kernel) about the model of the RUNNING operator fixer (since the fix: commits the fixer replaces '
+                  'every reported IR node by node.clone(source=None); model fixLines: the lines of reported nodes are rewritten by '
+                  'specFix, every other line is copied): C43_fixer_lines (line by line characterisation), C43_fixer_local (lines '
+                  'outside reported statements unchanged, no line added or lost), C43_fixer_clean (a line of a reported statement has no '
+                  'violation left and its literal/comment characters are the original ones), C43_fixer_protected; underlying statements '
+                  'about specFix for every text and every start state of the code/literal/comment segmenter: C43_render_toks (lossless '
+                  'tokenizer), C43_fix_local, C43_fix_retokenize, C43_fix_clean, C43_fix_idempotent, C43_fix_protected, '
+                  'C43_fix_sem_partial + C43_sym_injective (per token: the symbol written is read back by the F90 symbol table as the '
+                  'same operator when the next character is not "="; whole-text re-lexing is oracle only). The model is tied to the '
+                  'real Linter.fix by correspondence up to the layout of the regenerated statements (blanks, &, line breaks, letter '
+                  'case of code: the backend\'s) on inputs outside the six open write-back classes fix-*; C43_real_fix_untouched (file '
+                  'rewritten iff something was reported), C43_findall_f77 (every reported text is a spelling of the operator named in '
+                  'the message), C43_tables_pinned. Detection (Source.find, clone_lines, strip_inline_comments, line choice, findall) is '
+                  'modelled line by line and tied to the real Linter.check by correspondence; "reported = F77 operators in code tokens" '
+                  'is checked by the direct oracle only and fails in five open classes ops-*. DynamicUboundCheckRule: decision model '
+                  '(which arguments are reported, which IF constructs are removed) by correspondence; text preservation, re-lint and '
+                  're-parse of the written file by the direct oracle only (open classes ubound-*, fix-intrinsic-regenerated).')
     level_note = ('The frontend (fparser -> IR), ComparisonRetriever and str(expression) are inputs of the detection model: the '
                   'request carries node source / str(expr) / operator set and impl re-derives them from the real frontend on every '
                   'run. The conservative writer (fgen conservative=True, C03) is not modelled. No gfortran run: "same outputs" is '
@@ -582,6 +662,8 @@ class C43(Prop):
                'namespace LokiModel.Generated.C43\n\n'
                'def opMap : List (String × String) := [\n' + rows_m + '\n]\n\n'
                'def opPatterns : List (String × String × Nat) := [\n' + rows_p + '\n]\n\n'
+               f'def frameHead : String := {lean_str(HEAD)}\n'
+               f'def frameTail : String := {lean_str(TAIL)}\n'
                f'def opsRuleFixable : Bool := {"true" if OPRULE.fixable else "false"}\n'
                f'def uboundRuleFixable : Bool := {"true" if UBRULE.fixable else "false"}\n\n'
                'end LokiModel.Generated.C43\n')
@@ -631,7 +713,13 @@ class C43(Prop):
                 return [A('error'), A(res['check_error'])]
             if res['fix'] == 'untouched' and res['fixed'] != program(body):
                 return [A('error'), A('file-changed-without-fix')]
-            return [A('ok'), [A('reports')] + [[A('r'), s, f, l] for s, f, l in res['reports']], [A('fix'), A(res['fix'])], kn]
+            fk = fix_known_flags(program(body), nodes, res['reports'])
+            if res['fix'] == 'ran':
+                fx = [A('fix'), A('ran'), A('known') if any(fk) or known_unparsed(body) else squash(res['fixed'])]
+            else:
+                fx = [A('fix'), A(res['fix'])]
+            return [A('ok'), [A('reports')] + [[A('r'), s, f, l] for s, f, l in res['reports']], fx, kn,
+                    [A('fixknown')] + fk]
         if op == 'ubound':
             args, calls, src = ub_desc_from_req(req)
             res = run_ubound(src)
@@ -643,8 +731,8 @@ class C43(Prop):
     # ---- direct oracle
     def detect_class(self, src, nodes):
         fl = known_flags(src, nodes)
-        order = [('ops-nonlower-spelling', fl[0]), ('ops-span-heuristic', fl[5]), ('ops-lookalike-in-literal', fl[1]),
-                 ('ops-unparsed-statement', fl[2]), ('ops-mixed-spelling-in-node', fl[3]), ('ops-same-op-on-several-lines', fl[4])]
+        order = [('ops-span-heuristic', fl[4]), ('ops-lookalike-in-literal', fl[0]),
+                 ('ops-unparsed-statement', fl[1]), ('ops-mixed-spelling-in-node', fl[2]), ('ops-same-op-on-several-lines', fl[3])]
         return next((n for n, f in order if f), None)
 
     def oracle(self, req):
@@ -660,7 +748,7 @@ class C43(Prop):
         nodes = req_nodes(req)
         src = program(body)
         res = run_ops(src)
-        cls = self.detect_class(src, nodes)
+        cls = self.detect_class(body, nodes)
         fails = []
         want = sorted((s, sp.lower()) for s, sp in spec_viol(src))
         if res['check_error']:
@@ -669,50 +757,71 @@ class C43(Prop):
         got = sorted((s, f.lower()) for s, f, _ in res['reports'])
         if got != want:
             fails.append(Failure(f'reported F77 operators {got!r} but the code tokens of the file contain {want!r}', cls))
-        if res['fix'] in ('raises', 'attributeerror'):
-            fails.append(Failure('Linter.fix raises AttributeError (update_metadata) instead of fixing '
-                                 f'{len(res["reports"])} reported violation(s)', 'ops-fix-raises'))
+        if res['fix'].startswith('raises'):
+            fails.append(Failure(f'Linter.fix raises ({res["fix"]}) instead of fixing {len(res["reports"])} reported violation(s)', None))
         elif res['fix'] == 'ran':
-            fails += self.check_fixed_ops(src, res, cls)
+            fails += self.check_fixed_ops(src, res, nodes, cls)
         elif res['fixed'] != src:
             fails.append(Failure('file rewritten although nothing was reported', None))
         return fails
 
-    def check_fixed_ops(self, src, res, cls):
-        """the fixer ran (a repaired code base): re-lint, protected text, meaning, untargeted statements"""
+    def check_fixed_ops(self, src, res, nodes, dcls):
+        """the running fixer: re-lint, protected text, meaning, untargeted statements.  ``dcls`` = detection class of the input
+        (operators the check never reported are not expected to be fixed), ``fcls`` = write-back class"""
         fails = []
         fixed = res['fixed']
-        reported_lines = {l for _, _, l in res['reports']}
+        fk = fix_known_flags(src, nodes, res['reports'])
+        fcls = next((n for n, f in zip(FIX_CLASSES, fk) if f), None)
+        rr = reported_ranges(nodes, res['reports'])
         try:
             again = relint_ops(fixed)
+        except IndexError:
+            # the check itself raises on the fixed text: the detection defect ops-span-heuristic, now on F90-only statements
+            fnodes = run_ops(fixed)['nodes']
+            return [Failure('re-lint of the fixed file raises IndexError', 'ops-span-heuristic' if known_span(fnodes) else fcls)]
         except Exception as e:  # pylint: disable=broad-except
-            return [Failure(f'the fixed file no longer parses: {type(e).__name__}', None)]
+            return [Failure(f'the fixed file no longer parses: {type(e).__name__}', fcls)]
         if again:
-            fails.append(Failure(f're-lint of the fixed file still reports {again!r}', cls))
-        if got := [sp for _, sp in spec_viol(fixed) if True]:
-            # operators that the check never reported are not expected to be fixed
-            if len(got) > len(spec_viol(src)) - len(res['reports']):
-                fails.append(Failure(f'F77 operators left in code after the fix: {got!r}', cls))
+            fails.append(Failure(f're-lint of the fixed file still reports {again!r}', fcls or dcls))
+        # every operator token on the lines of a reported node is gone
+        # (statements kept as text - PRINT ... - are regenerated from the parser's text by every write-back: class
+        # ubound-fix-reformats-statements, checked below; they are left out here)
+        expect_left = [sp for i, l in enumerate(src.split('\n'), 1)
+                       if not any(a <= i <= b for a, b in rr) and not is_frame_line(l) for _, sp in spec_viol(l)]
+        left = [sp for l in fixed.split('\n') if not is_frame_line(l) for _, sp in spec_viol(l)]
+        if sorted(left) != sorted(expect_left):
+            fails.append(Failure(f'F77 operators in code after the fix: {left!r}, expected only those outside reported statements '
+                                 f'{expect_left!r}', fcls))
         if sorted(lit_values(fixed)) != sorted(lit_values(src)):
-            fails.append(Failure('character literals changed by the fix', None))
+            fails.append(Failure(f'character literals changed by the fix: {sorted(set(lit_values(src)) ^ set(lit_values(fixed)))!r}', fcls))
         if sorted(comments(fixed)) != sorted(comments(src)):
-            fails.append(Failure(f'comments changed by the fix: {sorted(set(comments(src)) ^ set(comments(fixed)))!r}', None))
+            fails.append(Failure(f'comments changed by the fix: {sorted(set(comments(src)) ^ set(comments(fixed)))!r}', fcls))
+        elif sorted(standalone_comments(fixed)) != sorted(standalone_comments(src)):
+            fails.append(Failure('a trailing comment is moved to a line of its own by the fix: '
+                                 f'{sorted(set(standalone_comments(fixed)) - set(standalone_comments(src)))!r}', fcls))
         if sem_tokens(fixed) != sem_tokens(src):
-            fails.append(Failure('code tokens (relational operators in either spelling, blanks and case ignored) changed by the fix', None))
-        # statements that carry no reported violation are byte-identical
-        node_lines = set()
-        for l0, s, _, _ in res['nodes']:
-            if l0 in reported_lines:
-                node_lines |= set(range(l0, l0 + s.count('\n') + 1))
-        keep = [l for i, l in enumerate(src.split('\n'), 1) if i not in node_lines]
+            fails.append(Failure('code tokens (relational operators in either spelling, blanks and case ignored) changed by the fix', fcls))
+        # statements that carry no report are byte-identical, in order
+        keep = [l for i, l in enumerate(src.split('\n'), 1) if not any(a <= i <= b for a, b in rr)]
         flines = fixed.split('\n')
+        sq = lambda l: ''.join(l.split()).lower()
+        fsq = [sq(l) for l in flines]
         j = 0
+        reformatted = []
         for l in keep:
             try:
                 j = flines.index(l, j) + 1
             except ValueError:
-                fails.append(Failure(f'untargeted line {l!r} is not carried over verbatim', None))
+                if is_frame_line(l):
+                    if sq(l) in fsq[j:]:
+                        j = fsq.index(sq(l), j) + 1
+                    reformatted.append(l.strip())
+                    continue
+                fails.append(Failure(f'untargeted line {l!r} is not carried over verbatim', fcls))
                 break
+        if reformatted:
+            fails.append(Failure(f'untargeted statements are regenerated with other keyword case / spacing by the fix: {reformatted!r}',
+                                 'ubound-fix-reformats-statements'))
         return fails
 
     def oracle_ubound(self, req):
@@ -746,7 +855,7 @@ class C43(Prop):
             again = relint_ubound(fixed)
         except Exception as e:  # pylint: disable=broad-except
             return fails + [Failure(f'the fixed file no longer parses ({type(e).__name__})',
-                                    'ubound-inline-if-duplicated' if inline_left else None)]
+                                    None)]
         if again:
             fails.append(Failure(f're-lint of the fixed file still reports {again!r}', None))
         # the targeted IF constructs are gone (each generated check line is unique up to repeated checks, which are all targeted or none)
@@ -773,11 +882,11 @@ class C43(Prop):
                     continue
                 is_inline = bool(re.match(r'\s*if\s*\(', l, re.I)) and not l.strip().lower().endswith('then')
                 fails.append(Failure(f'untargeted line {l!r} is not carried over verbatim',
-                                     'ubound-inline-if-duplicated' if is_inline else None))
+                                     None))
                 break
         if reformatted:
             fails.append(Failure(f'untargeted statements are regenerated with other keyword case / spacing by the fix: {reformatted!r}',
-                                 'ubound-fix-reformats-statements'))
+                                 'ubound-fix-reformats-statements' if all(is_frame_line(l) for l in reformatted) else None))
         have = comments(fixed)
         for cm in comments(src, skip=cond_lines | decl_lines):
             if cm in have:
@@ -835,6 +944,10 @@ def comments(text, skip=()):
         if c:
             out.append(c.rstrip())
     return out
+
+
+def standalone_comments(text):
+    return [l.strip() for l in text.split('\n') if l.strip().startswith('!')]
 
 
 PROP = C43()
